@@ -154,7 +154,7 @@ func (g *Graph) BFS(bad map[int]bool) {
 // argument classes, the kinds of outputs and whether the state changed.
 func edgeClass(e Edge, changed bool) string {
 	parts := []string{fmt.Sprint(e.A["a"])}
-	for _, f := range []string{"m", "k", "mut", "beyond", "kind"} {
+	for _, f := range []string{"m", "k", "mut", "beyond", "kind", "attr", "fill", "reuse", "v", "proto"} {
 		if v, ok := e.A[f]; ok {
 			parts = append(parts, f+"="+fmt.Sprint(v))
 		}
